@@ -2,6 +2,7 @@ package httpcache
 
 import (
 	"context"
+	"net/url"
 	"log/slog"
 	"net/http"
 	"time"
@@ -90,6 +91,7 @@ func VxB_Faults() {
 	req := vxGET(http.Header{"Cache-Control": []string{qs}})
 	// a request the cache answers itself, or an unsafe one it forwards and invalidates for
 	req.Method = [...]string{"GET", "POST"}[vxChoice("req.method", 2)]
+	req.URL.User = url.UserPassword("alice", "s3cret") // credentials in the URL belong to the caller and the origin
 	originErrs := 0
 	var last *http.Response
 	w.origin.script = func(n int, r *http.Request) (*http.Response, error) {
@@ -128,5 +130,11 @@ func VxB_Faults() {
 		vxAssert(vxAnd(q.onlyIfCached, resp.StatusCode == 504), "C10/answered-from-corrupt-store")
 	}
 	vxAssert(len(w.origin.calls) <= 1, "C10/at-most-one-origin-call")
+	pw, _ := req.URL.User.Password()
+	vxAssert(req.URL.User.Username() == "alice" && pw == "s3cret", "C10/request-changed-when-logging")
+	for _, oc := range w.origin.calls {
+		opw, _ := oc.URL.User.Password()
+		vxAssert(opw == "s3cret", "C10/request-changed-when-logging")
+	}
 	_ = logged
 }
